@@ -155,7 +155,7 @@ func (d *Daemon) ContainerList(_ context.Context, _ container.ListOptions) ([]ty
 // schedule waits until n calls of the wave have arrived, then lets them complete one at a
 // time in the planned order.
 func (d *Daemon) schedule(wave, n int) {
-	deadline := time.Now().Add(10 * time.Second)
+	deadline := time.Now().Add(5 * time.Second)
 	for {
 		d.mu.Lock()
 		if d.wave != wave {
